@@ -22,6 +22,8 @@ EXTRA = {  # additional checks expected to notice a change that was written agai
     'C15-j': ['C08'], 'C18-j': ['C01'],
     'C02-k': ['C10'], 'C02-l': ['C08'], 'C08-l': ['C18'], 'C04-k': ['C05'], 'C04-l': ['C05'], 'C18-l': ['C11'], 'C05-k': ['C11'],
     'C05-l': ['C02'], 'C07-k': ['C11'], 'C07-l': ['C01'], 'C10-k': ['C15'], 'C12-k': ['C08'],
+    'C16-m': ['C11'], 'C04-n': ['C05'], 'C20-m': ['C08'], 'C10-n': ['C02'], 'C02-n': ['C10'], 'C03-n': ['C02'], 'C05-m': ['C04'],
+    'C07-m': ['C16'], 'C07-n': ['C11'], 'C09-m': ['C12'], 'C09-n': ['C12'], 'C12-m': ['C04'], 'C14-n': ['C08'],
 }
 
 
